@@ -4,7 +4,8 @@
    Consumer/Log.v (the log, faithful fetch results, runs), Consumer/Feeder.v (responseFeeder). *)
 From Coq Require Import String List ZArith Bool Sorting.Sorted.
 From SV Require Import Consumer.Parse Consumer.Log Consumer.ParseProofs Consumer.RunProofs Consumer.MoreProofs
-  Consumer.Feeder Consumer.FeederProofs Consumer.Refcount Consumer.RefcountProofs Gen.GoInt Gen.DecTypes Gen.DecC03 Consumer.TieProofs.
+  Consumer.Feeder Consumer.FeederProofs Consumer.Refcount Consumer.RefcountProofs Consumer.Pipeline
+  Consumer.PipelineProofs Consumer.PipelineExact Gen.GoInt Gen.DecTypes Gen.DecC03 Consumer.TieProofs.
 Import ListNotations.
 Open Scope Z_scope.
 
@@ -94,6 +95,66 @@ Theorem c03_feeder_exact : forall (P : Type) (reapply : bool) (is : list (icpt P
   map fst (delivered (snd (feed_all P reapply is fa rs scheds))) = map fst (concat rs).
 Proof. exact feed_all_ids. Qed.
 Print Assumptions c03_feeder_exact.
+
+(* ---- the composition around one broker (Consumer/Pipeline.v): worker (subscriptionManager batching, fetch loop, acks
+   counter, handleResponses verdict classes, abort and re-creation), per-partition dispatcher (trigger, dispatch success /
+   failure, child.broker = nil) and per-partition feeder (parseResponse, hand-off, slow-reader path, re-subscription);
+   any number of partitions.  [reach] = every state reachable by enabled steps in any order, with any fetch failures,
+   per-partition answers (faithful for the state the request was built from: data, partial, or any fault), dispatch
+   failures and reader paces. *)
+
+(* the protocol invariant: every partition is in exactly one place, a response reaches a feeder only when it is idle and
+   holds nothing, responseResult is consumed exactly by handleResponses, acks = subscribed children still holding
+   the response (fields of PInv / Inv in Consumer/PipelineProofs.v) *)
+Theorem c03_pipeline_invariant : forall (size : sbatch -> Z) c logs ess pst0 s,
+  reach size c logs ess pst0 s -> Inv s.
+Proof. exact reach_inv. Qed.
+Print Assumptions c03_pipeline_invariant.
+
+(* per partition, in every reachable state: Messages() ++ (what the slow-reader path still holds) = concatenation of the
+   parseResponse outputs of the responses handed to its feeder; offset / fetchSize = parseResponse folded over exactly
+   those responses from the starting state (redispatch, re-subscription, abort never move them); the handed responses
+   form a run of faithful results in the sense of c03_parse_exact *)
+Theorem c03_pipeline_stream : forall (size : sbatch -> Z) c logs ess pst0 s, reach size c logs ess pst0 s -> forall p,
+  c_out (ch s p) ++ c_rem (ch s p) = c_parsed (ch s p) /\
+  (c_drain (ch s p) = false -> c_out (ch s p) = c_parsed (ch s p)) /\
+  replay c (pst0 p) (map snd (c_handed (ch s p))) = (c_pst (ch s p), c_parsed (ch s p)) /\
+  Log.run size c (logs p) (ess p) (pst0 p) [] (c_pst (ch s p)) (c_parsed (ch s p)).
+Proof. exact pipeline_stream. Qed.
+Print Assumptions c03_pipeline_stream.
+
+(* hence exactly once, in order, nothing skipped, across leader changes, worker deaths, failed dispatches, slow readers *)
+Theorem c03_pipeline_exact : forall (size : sbatch -> Z) c logs ess pst0 s, reach size c logs ess pst0 s -> forall p,
+  wf_log (logs p) -> fits size c (logs p) ->
+  (read_committed c = true -> index_wf (logs p) (ess p) /\ index_complete (logs p) (ess p)) ->
+  let S := offset (pst0 p) in
+  c_out (ch s p) ++ c_rem (ch s p) = filter (in_range S (offset (c_pst (ch s p)))) (visible c (logs p)) /\
+  S <= offset (c_pst (ch s p)) /\
+  (exists rest, filter (geo S) (visible c (logs p)) = (c_out (ch s p) ++ c_rem (ch s p)) ++ rest) /\
+  StronglySorted Z.lt (offs (c_out (ch s p) ++ c_rem (ch s p))).
+Proof. exact pipeline_exact. Qed.
+Print Assumptions c03_pipeline_exact.
+
+(* keeps progressing: for a started partition whose trigger was not closed (no ErrOffsetOutOfRange), in every reachable
+   state a step on its path is enabled: its dispatcher (a live leader makes dispatch succeed), its feeder's drain, a
+   feeder of its worker taking a response (the reader is reading), handleResponses, or the worker's next round *)
+Theorem c03_pipeline_progress : forall (size : sbatch -> Z) c logs ess pst0 s, reach size c logs ess pst0 s -> forall p,
+  c_started (ch s p) = true -> c_closed (ch s p) = false -> exists o, pre s o = true /\ on_path p o.
+Proof. exact pipeline_progress. Qed.
+Print Assumptions c03_pipeline_progress.
+
+(* the pointers the feeder dereferences are never nil, acks.Done never drives the counter negative *)
+Theorem c03_pipeline_no_nil : forall (size : sbatch -> Z) c logs ess pst0 s, reach size c logs ess pst0 s -> forall p,
+  (forall k, pre s (OTake p k) = true -> c_broker (ch s p) = Some (w_gen (wk s)) /\ 0 < w_acks (wk s)) /\
+  (pre s (ODrain p) = true -> exists g, c_broker (ch s p) = Some g).
+Proof. exact pipeline_no_nil. Qed.
+Print Assumptions c03_pipeline_no_nil.
+
+Theorem c03_pipeline_example :
+  reach (fun _ => 0) cfg0 (fun _ => holes_log) (fun _ => []) (fun _ => st13) ex_state /\
+  map cm_offset (c_out (ch ex_state 0)) = [17] /\ offset (c_pst (ch ex_state 0)) = 18 /\ w_subs (wk ex_state) = [0].
+Proof. exact pipeline_example. Qed.
+Print Assumptions c03_pipeline_example.
 
 (* brokerConsumer reference count (refBrokerConsumer / unrefBrokerConsumer / dispatcher / ConsumePartition), for every
    sequence of ConsumePartition calls, dispatcher iterations (dispatch failing or finding any broker) and dispatcher
